@@ -28,7 +28,6 @@ Observed == /\ exists' = Ev.o.exists
             /\ keyVer' = Ev.o.keyVer
             /\ st' = Ev.o.sst
             /\ Ev.o.ndirs = (IF exists' THEN 1 ELSE 0)
-            /\ Ev.o.filesok
             /\ (Ev.out = "refused" => ~Ev.o.changed)      \* a refused operation leaves the persisted files untouched
 
 Running == verdict = "run" /\ l <= Len(Tr)
